@@ -411,7 +411,11 @@ func runC17(r *core.Run) {
 						}
 					}
 					tail = append(tail, fmt.Sprintf("breakdown %v", brk))
-					r.Violate(fmt.Sprintf("no-loss:%s:after-%s", kind, op), fmt.Sprintf("mint %s: outstanding ecash per transport record %d (signed %d - redeemed %d), wallets + pending + held tokens account for %d not-spent", hosts[host].Env.Name, out, led.signed[host], led.redeemed[host], holdings[host]), csig, tail)
+					outcome := "ok"
+					if opErr != nil {
+						outcome = "failed"
+					}
+					r.Violate(fmt.Sprintf("no-loss:%s:after-%s:%s", kind, op, outcome), fmt.Sprintf("mint %s: outstanding ecash per transport record %d (signed %d - redeemed %d), wallets + pending + held tokens account for %d not-spent", hosts[host].Env.Name, out, led.signed[host], led.redeemed[host], holdings[host]), csig, tail)
 				}
 			}
 			for _, md := range models {
